@@ -11,11 +11,14 @@ def generate(G):
                        "sequence": "forward -> cost -> backward -> GradientDescent::update(parameters)"},
              domains="initial parameters, every batch, every target: D2 (relu input Dsgn); lr in {0,0.5,1,2}")
 
-    dense([1, 1], 1, 1, "None", "Mse", 1, "quick", stubs=("powf",))
-    dense([2], 2, 1, "None", "Bilinear", 1, "quick")
-    dense([2, 1], 1, 1, "None", "Bilinear", 1, "quick")
-    dense([1, 1], 1, 1, "None", "Bilinear", 2, "quick")
+    # quick: one iteration each (plus the clean-state assertions that make it the inductive step);
+    # two iterations, mse and batches of two cost 10-30 min of symex each: thorough
     dense([1, 2], 2, 1, "Relu", "Bilinear", 1, "quick")
+    dense([2], 2, 1, "None", "Bilinear", 1, "quick")
+    dense([1, 1], 1, 1, "None", "Bilinear", 1, "quick")
+    dense([1, 1], 1, 1, "None", "Mse", 1, "thorough", stubs=("powf",))
+    dense([2, 1], 1, 1, "None", "Bilinear", 1, "thorough")
+    dense([1, 1], 1, 1, "None", "Bilinear", 2, "thorough")
     dense([2, 2], 2, 1, "None", "Mse", 1, "thorough", stubs=("powf",))
     dense([1, 2], 2, 1, "None", "Mse", 2, "thorough", stubs=("powf",))
     dense([2, 1], 1, 2, "None", "Bilinear", 2, "thorough")
@@ -39,7 +42,7 @@ def generate(G):
     conv([1, 2, 2], [1, 1, 1, 2], (1, 1), 1, "quick")
     # two conv layers: the second one's input derivative over a non-square grid of windows
     G.ob("c14_conv2_1x2x3_f1x1_f2x2", "C14", "conv2_loop", "c14::conv2_loop(s, &[1, 2, 3], (1, 1, 1, 1), (1, 1, 2, 2), (1, 1))",
-         unwind=16, tier="quick", heavy=True,
+         unwind=16, tier="thorough", heavy=True,
          skeleton={"stack": "Conv(1x1x1x1) -> Conv(1x1x2x2)", "input": [1, 2, 3], "cost": "Bilinear", "iterations": 1,
                    "windows_of_second_layer": "1 x 2 (non-square)"}, domains="D2")
     G.ob("c14_conv2_1x3x2_f1x1_f2x2", "C14", "conv2_loop", "c14::conv2_loop(s, &[1, 3, 2], (1, 1, 1, 1), (1, 1, 2, 2), (1, 1))",
